@@ -4,6 +4,9 @@ From Boltons Require Import Lib.Prelude Lib.C11_Iface Spec.C11_Spec Model.C11_Mo
 
 Record c11_case := mkCase {
   c_digests : bool;                    (* are the two digests recorded after every step? *)
+  c_factor : option nat;               (* Some f: the harness ran this history with the module constant
+                                          _COMPACTION_FACTOR set to f (to reach the interval-count branch of
+                                          _cull with hundreds instead of thousands of items) *)
   c_steps : list (op * obs)            (* operation, implementation's observation after it *)
 }.
 
@@ -15,34 +18,40 @@ Definition dd (x : N) : option (N * N) := Some (x, x).
    first operation outside the property's quantifier (an index not valid for a
    list of the current length, a zero step), judged on the reference list, so a
    shrunk history can never fail for that reason. *)
-Fixpoint walk (dg : bool) (s : iset) (l : list K) (steps : list (op * obs)) : bool * bool :=
+Definition case_cfg (c : c11_case) : cfg :=
+  match c_factor c with
+  | Some f => mkCfg f (max_dead_intervals gen_cfg)
+  | None => gen_cfg
+  end.
+
+Fixpoint walk (cf : cfg) (dg : bool) (s : iset) (l : list K) (steps : list (op * obs)) : bool * bool :=
   match steps with
   | [] => (true, true)
   | (o, ob) :: r =>
       if valid_op l o then
-        let '(s', x) := m_step gen_cfg s o in
+        let '(s', x) := m_step cf s o in
         let '(l', y) := spec_step l o in
-        let '(a, h) := walk dg s' l' r in
+        let '(a, h) := walk cf dg s' l' r in
         (obs_eqb (m_obs dg s' x) ob && a, obs_eqb (spec_obs dg l' y) ob && h)
       else (true, true)
   end.
 
 Definition c11_verdict (c : c11_case) : verdict :=
-  let '(a, h) := walk (c_digests c) m_empty [] (c_steps c) in (a, h, false).
+  let '(a, h) := walk (case_cfg c) (c_digests c) m_empty [] (c_steps c) in (a, h, false).
 
 (* for replay files: per step (valid?, model's observation, reference's observation),
    and the model's internal state at the end *)
-Fixpoint explain_walk (dg : bool) (s : iset) (l : list K) (steps : list (op * obs))
+Fixpoint explain_walk (cf : cfg) (dg : bool) (s : iset) (l : list K) (steps : list (op * obs))
   : list (bool * obs * obs) * iset :=
   match steps with
   | [] => ([], s)
   | (o, ob) :: r =>
       if valid_op l o then
-        let '(s', x) := m_step gen_cfg s o in
+        let '(s', x) := m_step cf s o in
         let '(l', y) := spec_step l o in
-        let '(t, sf) := explain_walk dg s' l' r in
+        let '(t, sf) := explain_walk cf dg s' l' r in
         ((true, m_obs dg s' x, spec_obs dg l' y) :: t, sf)
       else ([(false, ob, ob)], s)
   end.
 
-Definition c11_explain (c : c11_case) := explain_walk (c_digests c) m_empty [] (c_steps c).
+Definition c11_explain (c : c11_case) := explain_walk (case_cfg c) (c_digests c) m_empty [] (c_steps c).
